@@ -221,7 +221,7 @@ def explore_program(program, bound, reduction=True, max_executions=None):
         out = r.run_schedule(arg)
         return out, out["dirty"]
 
-    server = isolate.Server(handler, recycle=3000, on_start=on_start)
+    server = isolate.Server(handler, recycle=10 ** 9, on_start=on_start)  # children retire only when an execution was dirty
     res = new_result()
     try:
         orders = serial_orders(program["threads"])
@@ -236,8 +236,13 @@ def explore_program(program, bound, reduction=True, max_executions=None):
         outcomes = {}
         viols = {}
 
+        gone = [0]
+
         def run_one(prefix):
             x = server.call(("sched", prefix))
+            if x["status"] == "alt-gone":
+                gone[0] += 1
+                return {"points": [], "choices": list(prefix), "skip": True, "status": "alt-gone"}
             if x["status"] == "diverged":
                 raise isolate.ExplorerError("%s: %s" % (program["label"], x["detail"]))
             if x["status"] == "timeout":
@@ -245,6 +250,8 @@ def explore_program(program, bound, reduction=True, max_executions=None):
             return x
 
         def on_exec(prefix, x):
+            if x.get("skip"):
+                return True
             obs = x["obs"]
             outcomes[obs] = outcomes.get(obs, 0) + 1
             bad = classify(obs, allowed, program)
@@ -270,7 +277,8 @@ def explore_program(program, bound, reduction=True, max_executions=None):
         res["outcomes"] = {"distinct_observations": len(outcomes), "serial_observations": len(allowed)}
         res["samples"] = [{"program": describe(program), "bound": bound, "executions": ex,
                            "distinct_observations": len(outcomes)}]
-        res["extra"] = {"programs": 1, "children_spawned": server.spawned, "serial_orders": len(orders)}
+        res["extra"] = {"programs": 1, "children_spawned": server.spawned, "serial_orders": len(orders),
+                        "alternatives_gone": gone[0]}
         for key, (cand, v) in viols.items():
             res["violations"].append(make_violation(program, v, bound, reduction))
     finally:
